@@ -18,7 +18,8 @@ RULE = ('all 65 binary tree shapes with <= 6 leaves (quick; plus Hypothesis shap
         'first instruction of every leaf. Oracle: reference Merkle verifier (sha256(sha256(script)) xor sha256(sibling) == '
         'node, level by level) decides which leaf, if any, may start; verdict = the leaf\'s own verdict for honest proofs, '
         'False with an empty recorder when the chain breaks; pack/unpack preserves root and unlocking scripts. '
-        'non-trivial = >= 3 leaves or any corruption; distinct by (shape, leaf index, pre-witness, corruption).')
+        'non-trivial = >= 3 leaves or any corruption; distinct by (shape, leaf index, pre-witness, corruption).'
+        " Serialisation restores a second tree of another shape over the same leaf scripts before asking both restored trees for every proof, commits one script at two positions, re-packs; trees are also grown step by step with every new subtree's leaves asked for their proofs before the subtree is embedded.")
 ASSUMPTIONS = ['leaf scripts stay below stack_max_item_size (documented precondition of commit-then-EVAL constructions)',
                'leaf scripts are pairwise distinct (unique tag), so sibling commitments differ as the property requires']
 
